@@ -589,7 +589,9 @@ Definition handle_start_task (s : state) (id i t : nat) : hres :=
       match nth_error (s_tasks st) t with
       | None => ok []
       | Some tk =>
-          if negb (start_task_guard (t_status tk)) then ok [c_mark id]
+          (* a StartTask left over from before a jump re-armed the stage: the stage is NOT_STARTED again *)
+          if status_eqb (s_status st) NOT_STARTED then ok [c_mark id]
+          else if negb (start_task_guard (t_status tk)) then ok [c_mark id]
           else if t_disabled tk then
             ok [txn [c_put i (st_tasks st (task_set (s_tasks st) t SKIPPED (t_started tk))); c_mark id; c_push (MCompleteTask i t SKIPPED)]]
           else ok [txn [c_put i (st_tasks st (task_set (s_tasks st) t RUNNING true)); c_mark id; c_push (MRunTask i t)]]
